@@ -314,6 +314,10 @@ def c19(pid, tier, seed):
     # a line that fills its rows exactly, directly followed by an empty line (in the message, in a log text): the empty line has a row of its own
     fams.append(fam("geo_full_then_empty", conf="single", W=3, H=8, D=4, BarOps=("set_message", "println", "tick", "finish_and_clear"), MsgShapes=("WnnA", "2WnnA", "a", "W"),
                     TextShapes=("T", "TWnnT"), Tpls=("M", "MnC"), Base=0))
+    # finished bars that are dropped (kept as static text, released from the head) on terminals as tall as one or two bars: what is omitted appears as soon as there is room
+    for (w, h) in ([(3, 1), (3, 2)] if q else [(3, 1), (3, 2), (2, 3), (4, 2)]):
+        fams.append(fam("geo_multi_zombies_%dx%d" % (w, h), W=w, H=h, Multi=True, MaxBars=3, Pre=3, D=7 if q else 8, BarOps=("finish", "drop", "tick", "mp_remove"), MpOps=(), Once=True,
+                        MsgShapes=("a",), Tpls=("M",), Fins=("AndLeave",), M0="id", Base=0, shards=12))
     # a field padded with blanks beyond the terminal width: the blanks wrap and count like any other column
     fams.append(fam("geo_padded", conf="single", W=3, H=6, D=4, BarOps=("set_message", "println", "tick", "finish_and_clear"), MsgShapes=("a", "W", "e"), TextShapes=("T",),
                     Tpls=("MP",), Base=0))
